@@ -30,7 +30,6 @@ const char *g_tok_last;
 
 int optind = 1, opterr, optopt;
 char *optarg;
-static char g_optarg_buf[4];
 const char *__progname = "tool";
 
 #define ROOM(p) (__CPROVER_OBJECT_SIZE(p) - __CPROVER_POINTER_OFFSET(p))
@@ -45,28 +44,32 @@ void exit(int status)
 	__CPROVER_assume(0);
 }
 
+/* position of short letter c in optstr, -1 if absent (loop-free: option strings are short) */
+#define POS(j) if (!end && optstr[j] == 0) end = 1; if (!end && optstr[j] != ':' && optstr[j] == c && found < 0) found = (j);
+static int find_short(const char *optstr, char c)
+{
+	int found = -1; _Bool end = 0;
+	POS(0) POS(1) POS(2) POS(3) POS(4) POS(5) POS(6) POS(7) POS(8) POS(9) POS(10) POS(11) POS(12) POS(13) POS(14) POS(15)
+	POS(16) POS(17) POS(18) POS(19) POS(20) POS(21) POS(22) POS(23)
+	if (!end && optstr[24] == 0) end = 1;
+	__CPROVER_assert(end, "getopt_long: option string shorter than 25 characters (limit of this model)");
+	return found;
+}
+#define ENT(i) if (!done && tbl[i].name == NULL) done = 1; \
+	if (!done) { int f = find_short(optstr, (char)tbl[i].val); n++; \
+		__CPROVER_assert(tbl[i].flag == NULL && f >= 0, "getopt_long: every long option has its short letter in the option string"); \
+		__CPROVER_assert(f < 0 || ((optstr[f + 1] == ':') == (tbl[i].has_arg == required_argument)), \
+				 "getopt_long: short and long spelling of an option agree on taking an argument"); }
+
 int getopt_long(int argc, char *const argv[], const char *optstr, const struct option *tbl, int *idx)
 {
-	unsigned n = 0, k;
+	unsigned n = 0, k; _Bool done = 0;
 	(void)idx;
 	__CPROVER_assert(argc >= 1 && argv != NULL && optstr != NULL && tbl != NULL, "getopt_long: arguments valid");
 	/* CHECKED precondition: the two tables describe the same options */
-	for (unsigned i = 0; i < 16; i++) {
-		if (tbl[i].name == NULL)
-			break;
-		n++;
-		int found = -1;
-		for (unsigned j = 0; j < 32; j++) {
-			if (optstr[j] == 0)
-				break;
-			if (optstr[j] != ':' && optstr[j] == (char)tbl[i].val && found < 0)
-				found = (int)j;
-		}
-		__CPROVER_assert(tbl[i].flag == NULL && found >= 0, "getopt_long: every long option has its short letter in the option string");
-		__CPROVER_assert(found < 0 || ((optstr[found + 1] == ':') == (tbl[i].has_arg == required_argument)),
-				 "getopt_long: short and long spelling of an option agree on taking an argument");
-	}
-	__CPROVER_assert(n >= 1 && n < 16, "getopt_long: long-option table terminated");
+	ENT(0) ENT(1) ENT(2) ENT(3) ENT(4) ENT(5) ENT(6) ENT(7) ENT(8) ENT(9) ENT(10) ENT(11)
+	if (!done && tbl[12].name == NULL) done = 1;
+	__CPROVER_assert(done && n >= 1, "getopt_long: long-option table has 1..12 entries (limit of this model)");
 #ifdef VERIF_GETOPT_STOP
 	__CPROVER_assert(0, "VERIF_REACH_END getopt_long reached");
 	__CPROVER_assume(0);
@@ -82,11 +85,7 @@ int getopt_long(int argc, char *const argv[], const char *optstr, const struct o
 		return '?';
 	k = nondet_uint();
 	__CPROVER_assume(k < n);
-	if (tbl[k].has_arg == required_argument) {
-		g_optarg_buf[3] = 0;
-		optarg = g_optarg_buf;
-	} else
-		optarg = NULL;
+	optarg = tbl[k].has_arg == required_argument ? (char *)"arg" : NULL;
 	return tbl[k].val;
 }
 
@@ -117,6 +116,7 @@ void jwt_checker_free(jwt_checker_t *c) { free(c); }
 int jwt_checker_verify(jwt_checker_t *c, const char *token)
 {
 	__CPROVER_assert(c != NULL, "jwt_checker_verify: checker non-NULL");
+	__CPROVER_assume(g_tok_calls < 0xffffffffffffffffULL);	/* ASSUMED: fewer than 2^64 tokens in one run */
 	g_tok_calls++;
 	g_tok_last = token;
 	if (nondet_bool()) {
